@@ -111,6 +111,28 @@ pub fn key_of(sel: &str) -> Option<(char, String, bool)> {
     }
 }
 
+/// Operator list for a selector: a single css-selector, or (with css-validation) the decomposition
+/// of a procedural selector from the generator's table.
+fn selector_ops(sel: &str) -> (Value, bool) {
+    #[cfg(feature = "css")]
+    for (text, ops) in crate::gen_cos::PROCEDURAL {
+        if *text == sel {
+            let v: Vec<Value> = ops.iter().map(|(t, a)| json!({"type": t, "arg": a})).collect();
+            return (Value::Array(v), true);
+        }
+    }
+    (json!([{"type": "css-selector", "arg": sel}]), false)
+}
+
+fn procedural_json(sel: &str) -> Option<String> {
+    let (ops, procedural) = selector_ops(sel);
+    if procedural {
+        Some(json!({"selector": ops}).to_string())
+    } else {
+        None
+    }
+}
+
 fn action_json(sel: &str, action: &str) -> Value {
     let a = if let Some(x) = action.strip_prefix(":style(") {
         json!({"type": "style", "arg": x.trim_end_matches(')')})
@@ -123,7 +145,7 @@ fn action_json(sel: &str, action: &str) -> Value {
     } else {
         json!(null)
     };
-    json!({"selector": [{"type": "css-selector", "arg": sel}], "action": a})
+    json!({"selector": selector_ops(sel).0, "action": a})
 }
 
 #[derive(Debug, Default, Clone, PartialEq)]
@@ -151,7 +173,9 @@ pub fn page_model(rules: &[&CosRule], host: &str, domain: &str, generichide: boo
         let hidden_generic = ru.pos.is_empty() && !ru.neg.is_empty() && matches!(ru.body, Body::Hide(_));
         if is_generic || hidden_generic {
             if let Body::Hide(sel) = &ru.body {
-                if key_of(sel).is_some() {
+                if procedural_json(sel).is_some() {
+                    // procedural filters cannot be generic: silently ignored
+                } else if key_of(sel).is_some() {
                     m.generic_keyed.insert(sel.clone());
                 } else {
                     m.generic_misc.insert(sel.clone());
@@ -169,6 +193,16 @@ pub fn page_model(rules: &[&CosRule], host: &str, domain: &str, generichide: boo
             m.scoped_elsewhere += 1;
         }
         match &ru.body {
+            Body::Hide(sel) if procedural_json(sel).is_some() => {
+                let item = procedural_json(sel).unwrap();
+                let (to_pos, to_neg) = if ru.unhide { (&mut unact, &mut act) } else { (&mut act, &mut unact) };
+                if p_hit {
+                    to_pos.insert(item.clone());
+                }
+                if n_hit {
+                    to_neg.insert(item);
+                }
+            }
             Body::Hide(sel) => {
                 let (to_pos, to_neg) = if ru.unhide { (&mut unhide, &mut hide) } else { (&mut hide, &mut unhide) };
                 if p_hit {
